@@ -304,6 +304,18 @@ def class_emissions(repo: Repo, relsfx: str, method: str = "render", named: Any 
     return out
 
 
+def _string_template_helper(fn: ast.FunctionDef) -> bool:
+    """A formatter helper that only arranges strings it is given: every parameter (also *args) is annotated
+    `str`, at least one exists, and the body is a single return."""
+    params = list(fn.args.args[1:]) + ([fn.args.vararg] if fn.args.vararg is not None else [])
+    if not params or fn.args.kwarg is not None:
+        return False
+    if not all(a_.annotation is not None and src_of(a_.annotation) == "str" for a_ in params):
+        return False
+    body = [b_ for b_ in fn.body if not (isinstance(b_, ast.Expr) and isinstance(b_.value, ast.Constant))]
+    return len(body) == 1 and isinstance(body[0], ast.Return)
+
+
 def formatter_returns(repo: Repo, relsfx: str, cls: str, meth: str, braces: bool = False, inline: Optional[Callable[[str], bool]] = None) -> List[str]:
     """Texts a formatter method can return (one per path), holes replaced by
     the source-like rendering of their values; `format_*` methods stay
@@ -316,7 +328,7 @@ def formatter_returns(repo: Repo, relsfx: str, cls: str, meth: str, braces: bool
     fi = m.lookup(c, meth)
     if fi is None:
         raise Inconclusive(f"{cls}.{meth} vanished")
-    flow = compiler_flow(repo, cls, relsfx, module_funcs=True, inline=(lambda name, fn: inline(name)) if inline is not None else (lambda name, fn: not name.startswith("format_")), max_depth=8)
+    flow = compiler_flow(repo, cls, relsfx, module_funcs=True, inline=(lambda name, fn: inline(name)) if inline is not None else (lambda name, fn: not name.startswith("format_") or _string_template_helper(fn)), max_depth=8)
     out: List[str] = []
     for p_ in flow.run(fi.node, {"self": V("self")}):
         if p_.done != "return" or p_.ret is None:
